@@ -797,6 +797,7 @@ func (tree *MutableTree) SaveVersion() ([]byte, int64, error) {
 	// new version - becomes visible: a concurrent reader of the previous version must never take
 	// the updated index for the index of its own version.
 	prevLatestVersion := tree.ndb.getCachedLatestVersion()
+	verifPoint("save:before-commit")
 	tree.ndb.resetLatestVersion(version)
 	if err := tree.ndb.Commit(); err != nil {
 		tree.ndb.resetLatestVersion(prevLatestVersion)
